@@ -264,7 +264,7 @@ def outcome_body(spec, wd):
             scale = float(np.max(np.abs(A0))) + 1e-30
             for mode in MODES[1:]:
                 d = float(np.max(np.abs(results[mode][0] - A0)))
-                if not d <= 1e-9 * scale:
+                if not d <= 1e-9 * scale + 1e-11:  # the floor covers tensors that vanish identically (both sides are rounding residue of O(1) terms)
                     return Outcome("violation", case_id=h, classes=classes, key=f"{PROP}:{h}", bucket=f"{PROP}:body:value:{mode}",
                                    what=f"optimiser mode {mode!r} changes kernel {k} ({itype}) of the form: max|A_opt - A_noopt| = {d:.3e} at scale {scale:.3e}",
                                    replay=dict(replay, mode=mode))
@@ -284,7 +284,7 @@ def outcome_body(spec, wd):
             continue
         scale = float(np.max(np.abs(A2))) + 1e-30
         d = float(np.max(np.abs(np.asarray(A1) - np.asarray(A2))))
-        if not d <= 1e-9 * scale:
+        if not d <= 1e-9 * scale + 1e-11:  # the floor covers tensors that vanish identically (both sides are rounding residue of O(1) terms)
             return Outcome("violation", case_id=h, classes=classes, key=f"{PROP}:{h}", bucket=f"{PROP}:compiled:value",
                            what=f"compiled kernel ({itype},{sid}) differs with/without the optimiser: {d:.3e} at scale {scale:.3e}", replay=dict(replay, mode="compiled"))
     return Outcome("ok", case_id=h, nontrivial=changed, classes=classes + (["pass-changed-body"] if changed else []),
